@@ -80,6 +80,21 @@ def _decode_all(_):
                     bad('first-letter-not-min', {}, case, 'first letter decodes to %r, min is %r' % (v, mn))
                 if gi == len(cs) - 1 and (v != mx if tp is int else not core.close(v, mx, rel=1e-9)):
                     bad('last-letter-not-max', {}, case, 'last letter decodes to %r, max is %r' % (v, mx))
+        # the neighbour in the middle (float -1..1): whatever stands left and right of it (a degenerate range included),
+        # its value is the linear image of ITS gene
+        for gi, g in enumerate(cs):
+            for h in cs[::16]:
+                dna = h + g + cs[7]
+                out['n'] += 1
+                try:
+                    v = jh.dna_to_hp(decl, dna)['p1']
+                except Exception as e:
+                    bad('decode-raises', {'exc': type(e).__name__}, dict(case0, dna=dna), 'dna_to_hp raised %r' % (e,))
+                    continue
+                lin = -1.0 + gi * 2.0 / (len(cs) - 1)
+                if not core.close(v, lin, rel=1e-9, abs_=1e-12):
+                    bad('neighbour-of-declaration', {'degenerate_neighbour': mn == mx}, dict(case0, gene=g, pos=1, dna=dna),
+                        'middle parameter (float -1..1) with gene %r between two %r..%r declarations decodes to %r, linear map gives %r' % (g, mn, mx, v, lin))
     return out
 
 
